@@ -1,6 +1,6 @@
 (* Extract_types2.v — extraction of slice types2 (TypesMore, with IntLex for the union members) to model_types2.ml *)
 From Coq Require Extraction ExtrOcamlBasic.
-From LY Require Import Base TypesMisc IntLex Utf8 TypesMore PathQuote IidCanon.
+From LY Require Import Base TypesMisc IntLex Utf8 TypesMore PathQuote IidCanon IdRef.
 Extraction Language OCaml.
 Extraction "model_types2.ml"
   N.add N.mul N.div N.modulo N.sub Z.add Z.mul Z.opp Z.of_N Z.abs_N Z.sub Z.ltb
@@ -10,4 +10,5 @@ Extraction "model_types2.ml"
   TypesMore.str_store TypesMore.str_compare TypesMore.str_sort TypesMore.utf8len
   TypesMore.union_store TypesMore.union_canon TypesMore.union_compare TypesMore.union_sort
   TypesMore.ip4p_store TypesMore.ip4p_compare
-  IidCanon.iid_print IidCanon.iid_parse.
+  IidCanon.iid_print IidCanon.iid_parse
+  IdRef.idref_store IdRef.idref_canon IdRef.idref_compare IdRef.idref_sort.
